@@ -191,6 +191,14 @@ def gen(rng, tier, allow_required=False, mod_id='C01'):
                      'sched': {'policy': {'kind': 'rand',
                                           'p': rng.choice([0.05, 0.2, 0.5])},
                                'seed': rng.getrandbits(32)}}
+  if mod_id == 'C01' and rng.random() < 0.1:
+    # a method registered (and perhaps used, perhaps bound) on its own before
+    # its class is registered, which gives it its final name
+    case['method_history'] = {
+        'early_call': rng.random() < 0.6,
+        'bind_before': rng.random() < 0.5,
+        'scope': rng.choice(['', '', 'mh']),
+        'api': rng.choice(['register', 'external'])}
   return case
 
 
@@ -633,8 +641,66 @@ def execute(case, allow_required=False, prefix='C01'):
   return viol, log, stats, model, w, sched_info
 
 
+def _method_history(mh, log):
+  """A registered method's bindings reach it whatever happened before its
+  class was registered."""
+  gin = world.gin
+  world.reset()
+  seen = []
+  g = {'__name__': 'ginsim_probes', 'seen': seen}
+  exec('class MH:\n'  # pylint: disable=exec-used
+       '  def run(self, x="dx", y="dy"):\n'
+       '    seen.append((x, y))\n'
+       '    return (x, y)\n', g)
+  MH = g['MH']
+  MH.__module__ = 'ginsim_probes'
+  out = []
+  try:
+    if mh['api'] == 'register':
+      MH.run = gin.register(MH.run)
+    else:
+      gin.external_configurable(MH.run)
+    if mh['bind_before']:
+      gin.bind_parameter((mh['scope'], 'ginsim_probes.run', 'x'), 'early-x')
+    if mh['early_call']:
+      with gin.config_scope(mh['scope'] or None):
+        gin.get_configurable(MH.run)(MH())
+      want = ('early-x' if mh['bind_before'] else 'dx', 'dy')
+      if seen[-1] != want:
+        out.append(('before-class', seen[-1], want))
+    if mh['api'] == 'register':
+      gin.register(module='mm')(MH)
+    else:
+      gin.external_configurable(MH, module='mm')
+    gin.bind_parameter((mh['scope'], 'mm.MH.run', 'y'), 'late-y')
+    with gin.config_scope(mh['scope'] or None):
+      gin.get_configurable(MH)().run()
+    want = ('early-x' if mh['bind_before'] else 'dx', 'late-y')
+    if seen[-1] != want:
+      out.append(('after-class', seen[-1], want))
+    log.add('method_history', mh, list(seen))
+  except Exception as e:  # pylint: disable=broad-except
+    return [{'oracle': 'C01.call_succeeds',
+             'sig': [ID, 'C01.call_succeeds', 'method-history',
+                     type(e).__name__],
+             'msg': 'method history %r raised %s: %s' %
+                    (mh, type(e).__name__, probes.scrub(str(e))[:300])}]
+  if out:
+    return [{'oracle': 'C01.received_value',
+             'sig': [ID, 'C01.received_value', 'method-history', out[0][0]],
+             'msg': 'method MH.run registered on its own (%s)%s%s, then its '
+                    'class registered and MH.run.y bound: %s call received %r, '
+                    'expected %r' %
+                    (mh['api'], ', run.x bound' if mh['bind_before'] else '',
+                     ', called once' if mh['early_call'] else '',
+                     out[0][0], out[0][1], out[0][2])}]
+  return []
+
+
 def run(case):
   viol, log, stats, model, w, si = execute(case, ALLOW_REQUIRED, ID)
+  if case.get('method_history') and not viol:
+    viol = viol + _method_history(case['method_history'], log)
   seen = set()
   uniq = []
   for x in viol:
@@ -672,6 +738,10 @@ def freeze(case, res):
 
 
 def shrinks(case):
+  if case.get('method_history'):
+    c = copy.deepcopy(case)
+    del c['method_history']
+    yield c
   if case.get('epoch'):
     c = copy.deepcopy(case)
     del c['epoch']
